@@ -140,4 +140,71 @@ theorem relabelStep_energy (x : Label → Rat) (m : List (Label × Label)) (s : 
       rw [relabelEntry_value x m e (h e (by simp)).1 (h e (by simp)).2, ih (fun e' he' => h e' (by simp [he']))]
   exact key s (fun e he => ⟨hs.1 e he, hinj e he⟩)
 
+theorem mem_relabelTerm (m : List (Label × Label)) (t : LTerm) (v : Label) :
+    v ∈ relabelTerm m t ↔ ∃ w ∈ t, mapLabel m w = v := by
+  unfold relabelTerm
+  rw [mem_dedup, List.mem_map]
+
+theorem relabelTerm_unchanged (m : List (Label × Label)) (t : LTerm) (h : ∀ v ∈ t, mapLabel m v = v) :
+    sameSet (relabelTerm m t) t = true := by
+  rw [sameSet_iff]
+  intro v
+  rw [mem_relabelTerm]
+  constructor
+  · rintro ⟨w, hw, rfl⟩; rw [h w hw]; exact hw
+  · intro hv; exact ⟨v, hv, h v hv⟩
+
+/-- **the label-level conditions give `RelabelOK`**: the mapping is injective on the variables of the polynomial and a variable that
+    changes gets a label that is not a variable of the polynomial (what `iter_safe_relabels` checks for a conflict-free dict) -/
+theorem relabelOK_of_labels (m : List (Label × Label)) (s : PolyState)
+    (hinj : ∀ v w, v ∈ stateVars s → w ∈ stateVars s → mapLabel m v = mapLabel m w → v = w)
+    (hfresh : ∀ v ∈ stateVars s, mapLabel m v ≠ v → mapLabel m v ∉ stateVars s) : RelabelOK m s := by
+  have hvars : ∀ e ∈ s, ∀ v ∈ e.1, v ∈ stateVars s := by
+    intro e he v hv
+    unfold stateVars
+    rw [mem_dedup, List.mem_flatMap]
+    exact ⟨e, he, hv⟩
+  refine ⟨?_, ?_⟩
+  · intro e1 h1 e2 h2 hss
+    rw [sameSet_iff] at hss ⊢
+    intro v
+    constructor
+    · intro hv
+      have := (hss (mapLabel m v)).1 ((mem_relabelTerm m e1.1 _).2 ⟨v, hv, rfl⟩)
+      obtain ⟨w, hw, hwv⟩ := (mem_relabelTerm m e2.1 _).1 this
+      have := hinj w v (hvars e2 h2 w hw) (hvars e1 h1 v hv) hwv
+      rw [← this]; exact hw
+    · intro hv
+      have := (hss (mapLabel m v)).2 ((mem_relabelTerm m e2.1 _).2 ⟨v, hv, rfl⟩)
+      obtain ⟨w, hw, hwv⟩ := (mem_relabelTerm m e1.1 _).1 this
+      have := hinj w v (hvars e1 h1 w hw) (hvars e2 h2 v hv) hwv
+      rw [← this]; exact hw
+  · intro e he hch e' he'
+    have hex : ∃ v ∈ e.1, mapLabel m v ≠ v := by
+      by_contra hno
+      have hall : ∀ v ∈ e.1, mapLabel m v = v := by
+        intro v hv
+        by_contra hne
+        exact hno ⟨v, hv, hne⟩
+      rw [relabelTerm_unchanged m e.1 hall] at hch
+      simp at hch
+    obtain ⟨v, hv, hne⟩ := hex
+    cases hc : sameSet e'.1 (relabelTerm m e.1) with
+    | false => rfl
+    | true =>
+      exfalso
+      have hin : mapLabel m v ∈ e'.1 := ((sameSet_iff _ _).1 hc (mapLabel m v)).2 ((mem_relabelTerm m e.1 _).2 ⟨v, hv, rfl⟩)
+      exact hfresh v (hvars e he v hv) hne (hvars e' he' _ hin)
+
+theorem relabel_inj_on_terms (m : List (Label × Label)) (s : PolyState) (hs : TermsOK s)
+    (hinj : ∀ v w, v ∈ stateVars s → w ∈ stateVars s → mapLabel m v = mapLabel m w → v = w) :
+    ∀ e ∈ s, (e.1.map (mapLabel m)).Nodup := by
+  intro e he
+  have hvars : ∀ v ∈ e.1, v ∈ stateVars s := by
+    intro v hv
+    unfold stateVars
+    rw [mem_dedup, List.mem_flatMap]
+    exact ⟨e, he, hv⟩
+  exact List.Nodup.map_on (fun v hv w hw h => hinj v w (hvars v hv) (hvars w hw) h) (hs.1 e he)
+
 end Red
